@@ -233,6 +233,7 @@ func c17r4(r *R) {
 		}
 	}
 	o2.Check(okCtx && okStop, "listener context/stop are not both initialised from context.WithCancel(ctx)")
+	handoffUnbuffered(r, "C17.R4")
 	// channel is unbuffered-or-not is irrelevant; setupServe passes server.ctx
 	setup := c.Method("pkg/proxyserver", "Server", "setupServe")
 	r.need(setup != nil, "setupServe not found")
@@ -360,4 +361,23 @@ func c17r6(r *R) {
 	for _, s := range callsIn(dps, "proxyserver.NewServer") {
 		o2.AtI(s).Check(c.Expr(callOf(s).Args[0]) == "p0", "NewServer gets context %s", c.Expr(callOf(s).Args[0]))
 	}
+}
+
+// handoffUnbuffered: the channel between serveConn and the internal HTTP/1.1 server's Accept is unbuffered: a completed send then
+// means the HTTP/1.1 server has the connection (and will close it); with a buffer a send can succeed after shutdown and the
+// connection sits in the buffer forever (never closed, never counted).
+func handoffUnbuffered(r *R, rule string) {
+	c := r.C
+	cl := c.Named("pkg/hack", "ChannelListener")
+	r.need(cl != nil, "hack.ChannelListener not found")
+	o := r.Ob(rule, "handoff-channel-unbuffered")
+	nch := 0
+	for _, a := range fieldAccesses(c.FuncsIn("pkg/hack"), cl, "channel") {
+		if a.Kind == "write" {
+			nch++
+			e := c.Expr(a.Instr.(*ssa.Store).Val)
+			o.AtI(a.Instr).Check(e == "make(chan net.Conn,0)", "the hand-off channel is %s, want an unbuffered channel (rendez-vous with the HTTP/1.1 server's Accept)", e)
+		}
+	}
+	o.Check(nch == 1, "the hand-off channel is initialised at %d sites", nch)
 }
